@@ -149,11 +149,37 @@ def confirm(gh, case, prop, tag, reps=30):
     return any(flag_property(c) == prop for c in first.values()), sorted(set(first.values()))
 
 
-def save_replay(prop, tier, seed, k, flag, case, events, note):
+def reattribute(gh, prop, case, tid, code, p):
+    """A flag whose natural property is not the one being checked: is what was observed a violation of the
+    checked property itself?  C08: the flagged call was not the first on its instance and is fine alone on a
+    fresh instance.  C09: the same calls are fine on the library's own blueprint.  C12: the same calls are fine
+    on an instance of the library that was never stored and loaded."""
+    if prop == "C08" and tid % 8 > 0:
+        alone = dict(case)
+        alone["calls"] = [case["calls"][tid % 8]]
+        still, _ = confirm(gh, alone, p, "%s-%d-alone" % (code, tid))
+        if not still:
+            return "C08-differs-from-fresh-instance(" + code + ")", "C08"
+    if prop == "C09" and case.get("variant") in ("fresh", "second", "multi", "concurrent"):
+        bp = dict(case)
+        bp["variant"] = "blueprint"
+        still, _ = confirm(gh, bp, p, "%s-%d-blueprint" % (code, tid))
+        if not still:
+            return "C09-instance-differs-from-blueprint(" + code + ")", "C09"
+    if prop == "C12" and str(case.get("variant", "")).startswith("reloaded"):
+        fr = dict(case)
+        fr["variant"] = "fresh"
+        still, _ = confirm(gh, fr, p, "%s-%d-unstored" % (code, tid))
+        if not still:
+            return "C12-loaded-differs-from-stored(" + code + ")", "C12"
+    return code, p
+
+
+def save_replay(prop, tier, seed, k, flag, case, events, note, natural=None):
     os.makedirs(os.path.join(VERIF, "replays"), exist_ok=True)
     path = os.path.join(VERIF, "replays", "%s-%s-%d-%d.json" % (prop, tier, seed, k))
     with open(path, "w") as f:
-        json.dump({"property": prop, "flag": flag, "kind": "engine-trace", "case": case, "observed": events, "note": note,
+        json.dump({"property": prop, "flagged_as": natural or prop, "flag": flag, "kind": "engine-trace", "case": case, "observed": events, "note": note,
                    "how": "./check replay " + path}, f, indent=1)
     return path
 
@@ -162,7 +188,7 @@ def replay(path):
     """./check replay <file>: re-executes the recorded case on the current /repo tree."""
     r = json.load(open(path))
     gh = build_harness()
-    ok, codes = confirm(gh, r["case"], r["property"], "replay", reps=50)
+    ok, codes = confirm(gh, r["case"], r.get("flagged_as", r["property"]), "replay", reps=50)
     print("replay of %s: flags now %s" % (path, codes))
     if ok:
         print("VIOLATION property=%s replay=%s" % (r["property"], path))
@@ -259,22 +285,19 @@ def evaluate(prop, batches, marks, rule, thorough_factor=None):
             raise ToolError("flagged trace %d has no case record" % tid)
         ok, codes = confirm(gh, case, p, "%s-%d" % (code, tid))
         evs = trace_events(b["dir"], tid)
-        if ok and tid % 8 > 0:
-            # the flagged call was not the first on its instance: if the same call is fine on a fresh
-            # instance, what was observed is an influence of the earlier calls (C08)
-            alone = dict(case)
-            alone["calls"] = [case["calls"][tid % 8]]
-            still, _ = confirm(gh, alone, p, "%s-%d-alone" % (code, tid))
-            if not still:
-                code, p = "C08-differs-from-fresh-instance(" + code + ")", "C08"
+        natural = p
+        if ok and p != prop:
+            code, p = reattribute(gh, prop, case, tid, code, p)
         if not ok:
             unreproduced += 1
             log("flag %s on trace %d did NOT reproduce in 30 fresh runs (flags now: %s)" % (code, tid, codes))
             save_replay(p, tier, seed, 900 + unreproduced, code, case, evs, "unreproduced")
             continue
+        if (p, code) in reported or sum(1 for (pp, _) in reported if pp == p) >= 3:
+            continue
         reported.add((p, code))
         violations += 1
-        path = save_replay(p, tier, seed, violations, code, case, evs, "confirmed in a fresh process")
+        path = save_replay(p, tier, seed, violations, code, case, evs, "confirmed in a fresh process", natural)
         print("VIOLATION property=%s replay=%s" % (p, path))
         print("  first failing guard: %s   program:\n    %s" % (code, case["grl"].replace("\n", "\n    ")))
     own_marks = sum(mark_counts.get(m, 0) for m in marks)
